@@ -94,6 +94,7 @@ def build_corpus(tier, rng):
     items.append(("case-spellings", Item("E", [Variant("A", "unit", [], [ser("mb"), tos("MB"), aci(False)]), Variant("B", "tuple", [Field("u8")], [ser("kb"), ser("Kb"), ser("KB"), aci(True, explicit=False)]),
                                                Variant("C", "unit", [], [DISABLED, ser("x"), ser("X"), det("never"), msg("never")])])))
     G.resolve_names(ID, [it for _, it in items])
+    items = [(f_, i_) for f_, i_ in items if not getattr(i_, "_lost_variants", False)]     # (only when the generator probe is unavailable)
     for fam, it in items:
         k = c.add_def(it, family=fam, derives=["EnumMessage"])
         for j, (i, _, tag) in enumerate(T.RR.sample_values(it)):
